@@ -126,6 +126,8 @@ CHAINS = {
     "loc": (lambda d: d.loc[d.divisions[1]:], True),
     "merge_single": (lambda d: d.merge(_small(), on="k", how="left"), True),
     "merge_bcast": (lambda d: d.merge(_small2(), on="k", how="inner", broadcast=True), False),
+    "merge_bcast_tasks": (lambda d: d.merge(_small2(), on="k", how="inner", broadcast=True, shuffle_method="tasks"), True),
+    "merge_bcast_left": (lambda d: d.merge(_small2(), on="k", how="left", broadcast=True, shuffle_method="tasks"), False),
     "shuffle_tasks": (lambda d: d.shuffle("k", shuffle_method="tasks"), False),
     "shuffle_disk": (lambda d: d.shuffle("k", npartitions=3, shuffle_method="disk"), False),
     "repartition": (lambda d: d.repartition(npartitions=2), True),
@@ -137,7 +139,7 @@ CHAINS = {
 
 
 # chains whose output index is created per partition by the join (labels not defined by the query)
-UNINDEXED = {"merge_bcast"}
+UNINDEXED = {"merge_bcast", "merge_bcast_tasks", "merge_bcast_left"}
 
 
 def selections(m):
